@@ -55,6 +55,7 @@ ASSUMPTIONS = [
 F11 = "F11-rooted-pattern-first-node-not-expandable"
 F12 = "F12-variable-reachable-twice-duplicate-group"
 F14 = "C12-android-locale-cycle-recursion"
+FB = "C12-android-bplus-strips-inner-b"
 
 
 def classify(v):
@@ -156,6 +157,8 @@ def is_exc(x):
 SEG_ALPHA = [
     [("t", "a")], [("t", "b.c")], [("s", None)], [("t", "p"), ("s", None), ("t", ".ftl")], [("d", None)],
     [("v", "locale")], [("v", "v"), ("t", "-x")], [("a",)],
+    # two adjacent stars at the start of a segment, followed by text: two single stars ("x" = the second one)
+    [("s", None), ("x", None), ("t", ".ftl")],
 ]
 ENUM_ENVS = [
     {"locale": "de", "v": "{w}q", "w": "z"},
@@ -173,19 +176,36 @@ def enum_sides(maxlen):
                 continue
             sd = G.Side()
             k = 0
+            sig = []
             for i in segs:
                 seg = []
                 for a in SEG_ALPHA[i]:
-                    if a[0] in "sd":
-                        seg.append((a[0], k))
+                    if a[0] in "sdx":
+                        seg.append(("s" if a[0] == "x" else a[0], k))
+                        sig.append(a[0])
                         k += 1
                     else:
                         seg.append(a)
                 sd.segs.append(seg)
-            sig = tuple(a[0] for seg in sd.segs for a in seg if a[0] in "sd")
             trailing = sd.segs[-1][0][0] == "d"
-            out.append((sig + (("T",) if trailing else ()), sd))
+            out.append((tuple(sig) + (("T",) if trailing else ()), sd))
     return out
+
+
+def fill_options(sig):
+    """small fills per wildcard of a signature ('x' = second of two adjacent stars: greedy leaves it empty)"""
+    kinds = [k for k in sig if k != "T"]
+    opts = []
+    for i, k in enumerate(kinds):
+        if k == "s":
+            opts.append(["", "m", "x.y"])
+        elif k == "x":
+            opts.append([""])
+        elif "T" in sig and i == len(kinds) - 1:
+            opts.append(["", "f", "d/f.x"])
+        else:
+            opts.append(["", "d/", "d/e/"])
+    return list(itertools.product(*opts))
 
 
 def enum_pairs(ctx):
@@ -195,12 +215,8 @@ def enum_pairs(ctx):
         bysig.setdefault(sig, []).append(sd)
     rng = ctx.rng("c11", "enum")
     triples = []
-    fills_star = ["", "m", "x.y"]
-    fills_dd = ["", "d/", "d/e/"]
     for sig, group in sorted(bysig.items()):
-        kinds = [k for k in sig if k != "T"]
-        allf = list(itertools.product(*[(fills_star if k == "s" else (["", "f", "d/f.x"] if ("T" in sig and i == len(kinds) - 1) else fills_dd))
-                                        for i, k in enumerate(kinds)]))
+        allf = fill_options(sig)
         for idx, a in enumerate(group):
             # quick: pair with a few partners; thorough: more
             partners = [group[(idx * 7 + j * 13 + 1) % len(group)] for j in range(2 if ctx.tier == "quick" else 3)]
@@ -367,6 +383,9 @@ def replay(payload):
     res = []
     for v in payload.get("violations", []):
         i = v["input"]
+        if v.get("op") == "sequence":
+            res.append(replay_sequence(i))
+            continue
         if v.get("op") == "foreign":
             rs = pool.pmap("impl.matcher", "impl_sub", [[{"a": i["a"], "b": i["b"], "paths": i["paths"]}]], timeout=10.0)[0]
             raw = rs["r"]["raw"] if "r" in rs else None
@@ -488,12 +507,112 @@ def run_separator_probe(ctx, out):
         out.count("probe.separator.cases")
 
 
+def run_sequences(ctx, out, n, rng, cls="sequence"):
+    """a matcher is used (its regex gets cached), THEN rebound with with_env: everything the rebound matcher
+    does must follow the NEW environment, everything the original does the old one"""
+    jobs = []
+    for _ in range(n):
+        g = G.gen_sequence(rng)
+        if g is None:
+            continue
+        a0, a1, b, fills, key = g
+        if dup_groups(a0.spec()) or dup_groups(b.spec()) or first_not_expandable(a0.spec()) or first_not_expandable(b.spec()):
+            continue
+        jobs.append((a0, a1, b, fills, key, a0.fill(fills), a1.fill(fills), b.fill(fills)))
+    cases = [{"a0": a0.spec(), "with": sorted(a1.withenv.items()), "b": b.spec(), "p_old": po, "p_new": pn, "pb": pb}
+             for a0, a1, b, fills, key, po, pn, pb in jobs]
+    res = pool.pmap("impl.matcher", "impl_sequence", [[c] for c in cases], timeout=5.0)
+    lines = []
+    for (a0, a1, b, fills, key, po, pn, pb) in jobs:
+        lines.append("pm.match " + G.margs(a1.spec()) + G.paths_arg([pn, po]))
+        lines.append("pm.match " + G.margs(a0.spec()) + G.paths_arg([po, pn]))
+    model = C.run_driver_parallel(lines) if ctx.model_ok else [None] * len(lines)
+    for idx, ((a0, a1, b, fills, key, po, pn, pb), case, r) in enumerate(zip(jobs, cases, res)):
+        out.evaluations += 1
+        inp = dict(case)
+        inp["class"] = cls
+        inp["rebound"] = key
+        if "r" not in r:
+            out.violations.append({"what": "sequence: adapter failed: %s %s" % (r.get("exc"), r.get("msg")), "input": inp,
+                                   "op": "sequence", "finding": None})
+            continue
+        got, canon = r["r"]["res"], r["r"]["canon"]
+        toks0, toks1 = a0.tokens(), a1.tokens()
+        exp = [
+            ("a0.match.old", a0.expected_groups(fills), "eq"),
+            ("a0.prefix", a0.fill(fills, upto_first_wildcard=True), "eq"),
+            ("a0.sub.old", pb, "eq"),
+            ("a1.match.new", a1.expected_groups(fills), "eq"),
+            ("a1.match.old", G.ref_match(toks1, po), "covers"),
+            ("a1.prefix", a1.fill(fills, upto_first_wildcard=True), "eq"),
+            ("a1.sub.new", pb, "eq"),
+            ("b.sub.a1", pn, "eq"),
+            ("a0.match.old.again", a0.expected_groups(fills), "eq"),
+            ("a0.match.new", G.ref_match(toks0, pn), "covers"),
+            ("b.sub.a0", po, "eq"),
+        ]
+        bad = False
+        for name, e, how in exp:
+            if name not in got:
+                out.violations.append({"what": "sequence: with_env raised %r" % (got.get("with_env"),), "input": inp, "op": "sequence",
+                                       "finding": finding_of_exc(got.get("with_env"), a1.spec())})
+                bad = True
+                break
+            g = got[name]
+            ok = (g == e) if how == "eq" else (not is_exc(g) and (g is not None) == e)
+            if not ok:
+                f = finding_of_exc(g, a0.spec()) or finding_of_exc(g, a1.spec()) or finding_of_exc(g, b.spec())
+                out.violations.append({"what": "after a0 was used and then rebound with with_env({%r: %r}): %s = %r, expected %s %r"
+                                       % (key, a1.withenv[key], name, g, "" if how == "eq" else "covered =", e),
+                                       "input": inp, "op": "sequence", "finding": f})
+                bad = True
+                break
+        if bad:
+            out.count(cls + ".violations")
+            continue
+        m1, m0 = model[2 * idx], model[2 * idx + 1]
+        if m1 is not None and m1 != canon["a1.match.new"] + " | " + canon["a1.match.old"]:
+            out.disagreements.append({"op": "pm.match(sequence, rebound)", "input": inp, "model": m1,
+                                      "impl": canon["a1.match.new"] + " | " + canon["a1.match.old"]})
+        elif m0 is not None and m0 != canon["a0.match.old.again"] + " | " + canon["a0.match.new"]:
+            out.disagreements.append({"op": "pm.match(sequence, original)", "input": inp, "model": m0,
+                                      "impl": canon["a0.match.old.again"] + " | " + canon["a0.match.new"]})
+        out.nontrivial.add(("seq", case["a0"]["pat"], po, pn))
+        out.count(cls + ".cases")
+        out.count(cls + ".rebound." + ("indirect" if key not in [x[1] for x in a0.atoms() if x[0] == "v"] else "direct"))
+        if out.distribution.get("sampled." + cls, 0) < 2 and len(out.samples) < 12:
+            out.count("sampled." + cls)
+            out.samples.append({"class": cls, "pattern": case["a0"]["pat"], "env": case["a0"]["env"], "with_env": case["with"],
+                                "old path": po, "new path": pn, "rebound matcher on old path": got["a1.match.old"]})
+
+
+def replay_sequence(i):
+    case = {k: i[k] for k in ("a0", "with", "b", "p_old", "p_new", "pb")}
+    r = pool.pmap("impl.matcher", "impl_sequence", [[case]], timeout=10.0)[0]
+    if "r" not in r:
+        return {"input": i, "result": r, "violates": True}
+    g = r["r"]["res"]
+    # laws that need no generator state: the rebound matcher maps its new path there and back, and if the new
+    # path differs from the old one in a bound variable the rebound matcher must not keep matching like the original
+    bad = []
+    if g.get("a1.sub.new") != i["pb"]:
+        bad.append("a1.sub(b, new path) = %r" % (g.get("a1.sub.new"),))
+    if g.get("b.sub.a1") != i["p_new"]:
+        bad.append("b.sub(a1, .) = %r" % (g.get("b.sub.a1"),))
+    if not isinstance(g.get("a1.match.new"), dict) or is_exc(g.get("a1.match.new")):
+        bad.append("a1.match(new path) = %r" % (g.get("a1.match.new"),))
+    if g.get("b.sub.a0") != i["p_old"]:
+        bad.append("b.sub(a0, .) = %r" % (g.get("b.sub.a0"),))
+    return {"input": i, "result": g, "violates": bool(bad), "laws": bad}
+
+
 def run(ctx):
     out = Outcome()
     out.rule = ("pairs (a, b) of patterns with the same wildcard sequence: bounded-exhaustive over 8 segment forms (literal, "
                 "star with affixes, `**`, {locale}, {v}-x, {android_locale}) up to 2 (quick) / 3 (thorough) segments x all small fills, "
                 "plus seeded random pairs from the configuration grammar (roots, with_env layers, nested variables, regex-special "
-                "literals); paths by filling the wildcards; non-trivial = a has >= 1 wildcard and a.match(path) succeeded; "
+                "literals, `**.ftl`-style adjacent stars, roots with regex metacharacters); operation SEQUENCES (use a matcher, then rebind it with "
+                "with_env - preferably a variable used only indirectly - then use both); paths by filling the wildcards; non-trivial = a has >= 1 wildcard and a.match(path) succeeded; "
                 "distinct = distinct (pattern a, path)")
     rng = ctx.rng("c11")
     triples = enum_pairs(ctx)
@@ -502,6 +621,7 @@ def run(ctx):
     rnd = [G.gen_pair(rng) for _ in range(ctx.n(15000, 150000))]
     run_pairs(ctx, out, rnd, "random", want_sub=True, want_neg=False)
     run_foreign(ctx, out, rnd[:ctx.n(900, 5000)])
+    run_sequences(ctx, out, ctx.n(2500, 25000), ctx.rng("c11", "seq"))
     pr = probe_cases(rng, ctx.n(400, 3000))
     for cls in sorted({p[0] for p in pr}):
         run_pairs(ctx, out, [p[1:] for p in pr if p[0] == cls], cls, want_sub=True, want_neg=False)
